@@ -193,7 +193,10 @@ class Run:
         o.attr_ka = b.keepaliveTimer is not None
         o.attr_dc = b.disconnectTimer is not None
         o.use = b.useKeepalives
+        o.disconnected = bool(b.disconnected)
         o.leftover = timer_calls(b)
+        o.leftover_any = sorted(getattr(dc.func, '__name__', '?') for dc in E.clock.getDelayedCalls()
+                                if getattr(dc.func, '__self__', None) is b)
         o.all_delayed = len(E.clock.getDelayedCalls())
         restore()
         return o
@@ -780,9 +783,125 @@ def call_states(K, T, states, rng, chunk=None):
     eff = [st if (st not in ("header-answer", "header-error", "partial") or i in incomplete) else "sent"
            for i, st in enumerate(states)]
     res = dict(states=eff, reqids=reqids, t_silent=t_silent, early=early, waiting_left=sorted(b.waitingForAnswers),
-               gifts=len(tub.gifts), inbound=inbound.hex())
+               gifts=len(tub.gifts), inbound=inbound.hex(), order=list(order),
+               answered_order=[i for i in complete if states[i] == "answered"])
     ob = r.finish()
     res["o"] = ob
     res["outcomes"] = {i: [(tm, getattr(getattr(x, "type", None), "__name__", None) or repr(x)[:40]) for (tm, x) in v]
                        for i, v in outcomes.items()}
+    return res
+
+
+# ---------------------------------------------------------------- byte-level PING/PONG against the C07 receiver model
+# (policy unslicers of harness/c07_impl.py: the opentype's first letter chooses the unslicer's behaviour)
+
+def policy_object(rng, depth, openid):
+    """tokens (list of bytes, one complete token each) of one object for the policy receiver; may contain violations at
+    any depth (wrong type in an ints-only list, too many items, over-long string, unknown opentype, bad start / child /
+    close / finish), long strings, LONGINTs and FLOATs; -> (tokens, next open id)"""
+    c = rng.random()
+    if depth >= 3 or c < 0.35:
+        k = rng.random()
+        if k < 0.4:
+            return [tINT(rng.choice([0, 1, 127, 128, 2 ** 31 - 1]))], openid
+        if k < 0.5:
+            return [tk(rng.randrange(1, 2 ** 31), NEG)], openid
+        if k < 0.8:
+            n = rng.choice([0, 1, 3, 4, 9, 40, 130])
+            return [tk(n, STRING, bytes(rng.randrange(256) for _ in range(n)))], openid
+        if k < 0.9:
+            n = rng.randint(1, 12)
+            return [tk(n, rng.choice([LONGINT, LONGNEG]), bytes(rng.randrange(256) for _ in range(n)))], openid
+        return [tk(0, FLOAT, bytes(rng.randrange(256) for _ in range(8)))], openid
+    me = openid
+    openid += 1
+    kind = rng.choice([b"L", b"L", b"L", b"I", b"S3", b"N2", b"C1", b"X", b"T", b"F", b"P", b"Q", b"Z", b"L7x", b"2"])
+    toks = [tOPEN(me), tSTR(kind)]
+    if kind == b"2":
+        toks.append(tSTR(rng.choice([b"a", b"bc"])))           # two index tokens
+    if rng.random() < 0.05:
+        toks[1] = tSTR(b"LONG")                                # index token longer than INDEX_MAX
+    for _ in range(rng.randint(0, 4)):
+        sub, openid = policy_object(rng, depth + 1, openid)
+        toks += sub
+    if rng.random() < 0.1:
+        toks.append(tABORT(me))
+    toks.append(tCLOSE(me))
+    return toks, openid
+
+
+def policy_stream(rng):
+    """-> (rootmode, list of complete tokens)"""
+    mode = rng.choice(["any", "any", "ints", "nofloat", "size3", "size40"])
+    toks = []
+    openid = 0
+    for _ in range(rng.randint(1, 3)):
+        t, openid = policy_object(rng, 0, openid)
+        toks += t
+    return mode, toks
+
+
+def run_policy(stream, chunks, mode):
+    """the real Banana with the policy unslicers of c07_impl -> (event codes, final snapshot, escaped exception, bytes written)"""
+    from harness import c07_impl, c07
+    p = c07_impl.PolicyBanana(mode)
+    pos = 0
+    escaped = None
+    for n in chunks:
+        try:
+            p.dataReceived(stream[pos:pos + n])
+        except Exception as e:
+            escaped = "%s: %s" % (type(e).__name__, e)
+            break
+        pos += n
+    snap = [len(p.buffer), p.skipBytes, p.discardCount, len(p.receiveStack), int(bool(p.inOpen)), int(bool(p.connectionAbandoned))]
+    written = b"".join(e[1] for e in p.vlog if e[0] == "write")
+    return [c07.ev_code(e) for e in c07_impl.events_of(p.vlog)], snap, escaped, written
+
+
+# ---------------------------------------------------------------- every closing path
+def closing_path(K, T, path, idle_first):
+    """one Broker (integer ms clock) closed along `path`, a list of steps out of
+         made | lost | shutdown | finish | tick:<ms>
+    (no `made` = the transport reports connectionLost although connectionMade never ran: negotiation failed first).
+    -> dict(exc, left = delayed calls of this Broker still scheduled at the end, attrs = timer attributes still set,
+            lose = loseConnection calls, results = outcomes of one pending callRemote (if connectionMade ran))"""
+    set_mode(True)
+    b = broker.Broker(TubRef("x"), keepaliveTimeout=K, disconnectTimeout=T)
+    tr = FT()
+    b.transport = tr
+    res = dict(exc=None, results=[])
+    made = False
+    try:
+        with E.quiet():
+            for st in path:
+                if st == "made":
+                    b.connectionMade()
+                    made = True
+                    tracker = referenceable.RemoteReferenceTracker(b, 1, None, None)
+                    rr = referenceable.RemoteReference(tracker)
+                    rr.callRemote("never_answered").addBoth(
+                        lambda r: res["results"].append(getattr(getattr(r, "type", None), "__name__", repr(r)[:40])))
+                    E.turn()
+                elif st == "lost":
+                    b.connectionLost(failure.Failure(ConnectionDone()))
+                    run_eventuals(b)
+                elif st == "shutdown":
+                    b.shutdown(failure.Failure(ConnectionDone()))
+                    run_eventuals(b)
+                elif st == "finish":
+                    b.finish(failure.Failure(ConnectionDone()))
+                    run_eventuals(b)
+                elif st.startswith("tick:"):
+                    advance_to(E.clock.seconds() + int(st[5:]))
+                else:
+                    raise ValueError(st)
+    except Exception as e:
+        res["exc"] = "%s: %s" % (type(e).__name__, e)
+    res["left"] = sorted(getattr(dc.func, "__name__", "?") for dc in E.clock.getDelayedCalls()
+                         if getattr(dc.func, "__self__", None) is b)
+    res["attrs"] = [n for n in ("keepaliveTimer", "disconnectTimer") if getattr(b, n, None) is not None]
+    res["lose"] = len(tr.lose_at)
+    res["made"] = made
+    restore()
     return res
